@@ -40,6 +40,7 @@ BASES = [
     'include("d0.conf")\ninclude("d1.conf")\nsec q { include("nosuch.conf") }\n',  # one level too deep, exactly the limit, missing file
     'i = 2\ninclude("~nosuchuser_verif/x.conf")\n',                                 # a tilde form that names no account
     'include("~/nosuch_verif_file.conf")\n',
+    'sec "%s" { x = 1 }\nsec "%s" { }\nsec "%s" { x = 2 }\ns = "%s"\n' % ('T' * 300, 'U' * 5000, 'T' * 300, 'v' * 9000),      # titles and values beyond any plausible fixed limit
 ]
 
 RULE = ('valid base texts (lists, function calls with 0-3 arguments, nested/titled/key=value/no-default sections, includes 1-3 deep, pointer options with release callback, '
